@@ -1684,7 +1684,6 @@ func inlinableFuncs(p *Prog) map[*types.Func]inlineDecl {
 	return out
 }
 
-
 // absPath: the type-named text of a path (x, x.f, xs[i], &x), with locals that merely name another path read through.
 func absPath(info *types.Info, e ast.Expr, defs map[types.Object]localDef, depth int) string {
 	e = ast.Unparen(e)
@@ -1720,7 +1719,6 @@ func absPath(info *types.Info, e ast.Expr, defs map[types.Object]localDef, depth
 	}
 	return absName(info, e)
 }
-
 
 // opAssignDef: the defining statement is `x op= e` or x++ / x--.
 func opAssignDef(st ast.Stmt) bool {
